@@ -37,6 +37,40 @@ CHECKS = {
              "quick": B(60000, 40), "thorough": B(2000000, 540, 500)},
         ],
     },
+    "C15": {
+        "level": "exploration",
+        "rule": "seeded histories of init/resize/set_type/add_frequency/cell, matrix, vector, frequency and z0/fz0 accessors and conversions "
+                "on three vnadata_t objects, indices from {-1,0,n-1,n,n+1,valid}; after every operation every getter of the touched "
+                "objects is compared with ArrayModel; non-trivial = at least 3 distinct object states compared; distinct = plan fingerprint",
+        "assumptions": [
+            "ArrayModel written from vnadata(3); get_fz0/get_fz0_vector with an out-of-range frequency index in ordinary-z0 mode is not asserted (manual: index unused)",
+            "errno of a refused call must be EINVAL; the callback discipline is C11's clause and is not asserted here",
+            "UBSan checks vla-bound and nonnull-attribute are off: zero-length VLAs and memcpy/memset(NULL, ..., 0) are treated as defined",
+        ],
+        "expected_probes": ["refused", "simple_to_perf", "perf_to_simple", "inplace_to_zin"],
+        "subchecks": [
+            {"check": "C15", "what": "clean configuration", "quick": B(60000, 35), "thorough": B(1500000, 400, 500)},
+            {"check": "C15.array.faulty", "what": "allocation failures inside growing operations, failed call re-issued",
+             "quick": B(15000, 12), "thorough": B(500000, 150, 500)},
+        ],
+    },
+    "C05": {
+        "level": "exploration",
+        "rule": "seeded histories concentrating on vnadata_convert: all type pairs reachable from well-conditioned networks, in place and "
+                "into fresh / previously used destinations, ordinary and per-frequency z0, followed by resizes; the model applies the "
+                "vnaconv function named by its own table; non-trivial = at least 3 distinct object states; distinct = plan fingerprint",
+        "assumptions": [
+            "vnaconv_* functions are trusted (C04 is not claimed): the model calls them through its own type-pair table",
+            "cells are compared with relative tolerance 1e-9 of the matrix scale (an equivalent vnaconv routine may be used), everything else exactly",
+            "A->B->C vs A->C compared at 1e-7 only for well-conditioned data; skipped (and counted) otherwise",
+        ],
+        "expected_probes": ["inplace_to_zin", "outofplace_convert", "convert_perf_z0", "convert_refused", "chain_compared"],
+        "subchecks": [
+            {"check": "C05", "what": "clean configuration", "quick": B(40000, 35), "thorough": B(1000000, 400, 500)},
+            {"check": "C05.array.faulty", "what": "allocation failures inside the destination set-up",
+             "quick": B(10000, 10), "thorough": B(300000, 120, 500)},
+        ],
+    },
     "C14": {
         "level": "exploration",
         "rule": "trees built by seeded edit histories over a hard key/value alphabet, exported to the simulated disk, everything "
@@ -67,14 +101,12 @@ NOT_APPLICABLE = {
 # properties the design claims but whose check is not built yet (listed as not claimed until then)
 PLANNED = {
     "C03": "check under construction (chaos engine, DESIGN.md section 5); not claimed until it exists",
-    "C05": "check under construction (array engine); not claimed until it exists",
     "C06": "check under construction (array engine + independent readers); not claimed until it exists",
     "C07": "check under construction (store engine); not claimed until it exists",
     "C09": "check under construction (corrupt engine); not claimed until it exists",
     "C10": "check under construction (cal engine); not claimed until it exists",
     "C11": "check under construction (failure-seeking workloads); not claimed until it exists",
     "C12": "check under construction (allocation-failure enumeration driver); not claimed until it exists",
-    "C15": "check under construction (array engine); not claimed until it exists",
     "C16": "check under construction (cal engine with scheduler); not claimed until it exists",
     "C17": "check under construction (cal engine, twin sessions); not claimed until it exists",
     "C20": "check under construction (cal engine); not claimed until it exists",
@@ -91,6 +123,20 @@ MANIFEST_TEXT = {
         "design_ref": "DESIGN.md section 5 C13",
         "level_note": "trusts DocModel (written from vnaproperty(3)) and the digest traversal; allocator ledger decides leaks; ASan/UBSan decide memory errors",
         "technique": "deterministic simulation: seeded operation histories vs. reference model, ledger + sanitizers, ddmin replay",
+    },
+    "C15": {
+        "level_text": "seeded exploration: every getter of the touched objects is compared with an executable array model after every "
+                      "operation of every generated history (clean and allocation-fault configurations); evidence, not proof",
+        "design_ref": "DESIGN.md section 5 C15",
+        "level_note": "trusts ArrayModel (written from vnadata(3)); ASan decides out-of-bounds accesses, the ledger decides leaks",
+        "technique": "deterministic simulation: seeded operation histories vs. reference model, allocation-fault injection with re-issue",
+    },
+    "C05": {
+        "level_text": "seeded exploration of conversion histories against a model that applies the documented vnaconv function with the "
+                      "frequency's own impedances; in-place vs out-of-place, reuse of destinations, later resizes; evidence, not proof",
+        "design_ref": "DESIGN.md section 5 C05",
+        "level_note": "trusts vnaconv_* (C04 not claimed) and ArrayModel's own type-pair table",
+        "technique": "deterministic simulation: seeded histories vs. reference model with differential conversion oracle",
     },
     "C14": {
         "level_text": "seeded exploration of build/export/restart/import cycles over a hard key/value alphabet on a simulated disk with "
